@@ -690,6 +690,139 @@ fn translate_iter_fold(f: &syn::ImplItemFn, back: bool) -> R<String> {
     Ok(format!("FPipe {}", block(&mut cx, &inner[2..])?))
 }
 
+/// GenericArrayIter::clone:
+///   let mut iter = GenericArrayIter { array: unsafe { ptr::read(&self.array) }, index: 0, index_back: 0 };
+///   for (dst, src) in iter.array.as_mut_slice().iter_mut().zip(self.as_slice()) {
+///       unsafe { ptr::write(dst, src.clone()) };  iter.index_back += 1; }
+///   iter
+fn translate_iter_clone(f: &syn::ImplItemFn) -> R<String> {
+    let st = &f.block.stmts;
+    if st.len() != 3 {
+        return Err("body is not `let mut iter = ..; for ..; iter`".into());
+    }
+    let is_zero = |e: &Expr| matches!(strip(e), Expr::Lit(l) if matches!(&l.lit, syn::Lit::Int(i) if i.base10_digits() == "0"));
+    let it = match &st[0] {
+        Stmt::Local(l) => {
+            let n = pat_ident(&l.pat).ok_or("first let pattern")?;
+            let init = &l.init.as_ref().ok_or("first let initialiser")?.expr;
+            let sl = match strip(init) {
+                Expr::Struct(sl) if sl.path.segments.last().map(|x| x.ident == "GenericArrayIter").unwrap_or(false) => sl,
+                _ => return Err("the copy is not a GenericArrayIter struct literal".into()),
+            };
+            let mut ok = 0;
+            for fv in &sl.fields {
+                let name = match &fv.member {
+                    syn::Member::Named(n) => n.to_string(),
+                    _ => return Err("struct literal member".into()),
+                };
+                match name.as_str() {
+                    "index" | "index_back" => {
+                        if !is_zero(&fv.expr) {
+                            return Err(format!("the copy starts with {} != 0: its Drop would own slots never written", name));
+                        }
+                        ok += 1;
+                    }
+                    "array" => {
+                        // unsafe { ptr::read(&self.array) }
+                        let inner = match strip(&fv.expr) {
+                            Expr::Unsafe(u) if u.block.stmts.len() == 1 => match &u.block.stmts[0] {
+                                Stmt::Expr(e, None) => e.clone(),
+                                _ => return Err("array initialiser".into()),
+                            },
+                            e => e.clone(),
+                        };
+                        let p = call_path(&inner).unwrap_or_default();
+                        if !ends_with(&p, &["ptr", "read"]) {
+                            return Err("array is not initialised by ptr::read(&self.array)".into());
+                        }
+                        ok += 1;
+                    }
+                    _ => return Err(format!("unknown field {}", name)),
+                }
+            }
+            if ok != 3 {
+                return Err("struct literal does not set array, index, index_back".into());
+            }
+            n
+        }
+        _ => return Err("first statement".into()),
+    };
+    if !matches!(&st[2], Stmt::Expr(e, None) if ident_of(e).as_deref() == Some(it.as_str())) {
+        return Err("the copy is not what is returned".into());
+    }
+    let fl = match &st[1] {
+        Stmt::Expr(Expr::ForLoop(fl), _) => fl,
+        _ => return Err("second statement is not the for loop".into()),
+    };
+    // it.array.as_mut_slice().iter_mut().zip(self.as_slice())
+    let z = match strip(&fl.expr) {
+        Expr::MethodCall(z) if z.method == "zip" && z.args.len() == 1 => z,
+        _ => return Err("the loop is not over a zip".into()),
+    };
+    let field_of = |e: &Expr, var: &str, field: &str| -> bool { matches!(strip(e), Expr::Field(fe) if ident_of(&fe.base).as_deref() == Some(var) && matches!(&fe.member, syn::Member::Named(n) if n == field)) };
+    let dst_ok = match strip(&z.receiver) {
+        Expr::MethodCall(im) if im.method == "iter_mut" => match strip(&im.receiver) {
+            Expr::MethodCall(ms) if ms.method == "as_mut_slice" => field_of(&ms.receiver, &it, "array"),
+            _ => false,
+        },
+        _ => false,
+    };
+    let src_ok = matches!(strip(&z.args[0]), Expr::MethodCall(a) if a.method == "as_slice" && ident_of(&a.receiver).as_deref() == Some("self"));
+    if !dst_ok || !src_ok {
+        return Err("zip of something other than the copy's slots (first) and self.as_slice()".into());
+    }
+    let names = pat_tuple(&fl.pat).ok_or("loop pattern")?;
+    if names.len() != 2 {
+        return Err("loop pattern arity".into());
+    }
+    let (dst, src) = (names[0].clone(), names[1].clone());
+    let mut body = vec![];
+    for s in &fl.body.stmts {
+        let e = match s {
+            Stmt::Expr(e, Some(_)) => e,
+            _ => return Err("loop statement".into()),
+        };
+        let e = match strip(e) {
+            Expr::Unsafe(u) if u.block.stmts.len() == 1 => match &u.block.stmts[0] {
+                Stmt::Expr(x, _) => x.clone(),
+                _ => return Err("loop statement".into()),
+            },
+            other => other.clone(),
+        };
+        if let Some(p) = call_path(&e) {
+            if ends_with(&p, &["ptr", "write"]) {
+                let a = call_args(&e);
+                let d = a.first().and_then(|x| ident_of(x));
+                let v = match a.get(1).map(|x| strip(x)) {
+                    Some(Expr::MethodCall(c)) if c.method == "clone" && c.args.is_empty() => ident_of(&c.receiver),
+                    _ => None,
+                };
+                if d.as_deref() == Some(dst.as_str()) && v.as_deref() == Some(src.as_str()) {
+                    body.push(format!("CWrite \"{}\" (XCallF [AVar \"{}\"])", dst, src));
+                    continue;
+                }
+            }
+            return Err("unrecognised call in the loop".into());
+        }
+        match &e {
+            Expr::Binary(b) if matches!(b.op, BinOp::AddAssign(_)) && field_of(&b.left, &it, "index_back") => {
+                match strip(&b.right) {
+                    Expr::Lit(l) if matches!(&l.lit, syn::Lit::Int(i) if i.base10_digits() == "1") => {}
+                    _ => return Err("index_back advanced by something other than 1".into()),
+                }
+                body.push("CBump \"index_back\"".into());
+            }
+            _ => return Err("unrecognised loop statement".into()),
+        }
+    }
+    Ok(format!(
+        "FPipe (mkPipe\n    [(\"{}\", KDest \"index_back\"); (\"{}\", KOwnedSeq 0)]\n    [{}]\n    SForEach)",
+        dst,
+        src,
+        body.join("; ")
+    ))
+}
+
 fn find_fn<'a>(file: &'a syn::File, tr: &str, self_pred: impl Fn(&syn::Type) -> bool, name: &str) -> R<&'a syn::ImplItemFn> {
     let mut found = None;
     for it in &file.items {
@@ -752,6 +885,16 @@ pub fn gen_pipe(files: &BTreeMap<String, syn::File>, out: &mut String) {
         }
     }
     let is_iter = |t: &syn::Type| matches!(t, syn::Type::Path(p) if p.path.segments.last().map(|s| s.ident == "GenericArrayIter").unwrap_or(false));
+    {
+        let res: R<String> = (|| {
+            let f = files.get("iter.rs").ok_or("iter.rs missing")?;
+            translate_iter_clone(find_fn(f, "Clone", is_iter, "clone")?)
+        })();
+        match res {
+            Ok(t) => writeln!(out, "Definition gen_iter_clone : fnprog :=\n  {}.\n", t).unwrap(),
+            Err(e) => println!("ERROR GenPipe.v iter_clone: {}", e),
+        }
+    }
     for (name, tr, func, back) in [("iter_fold", "Iterator", "fold", false), ("iter_rfold", "DoubleEndedIterator", "rfold", true)] {
         let res: R<String> = (|| {
             let f = files.get("iter.rs").ok_or("iter.rs missing")?;
